@@ -203,8 +203,14 @@ Cancel(e) ==
               evals, firstEvalT, pendingV, progS, progF, timeoutSeen, retSeen, ret, mS, mF, mD, mSetup, mSetupRes, labelsBad,
               stageCur, stageOpen, setupCleanupSeen, rvOK>>)
 
+\* d = microseconds since the run said why triggering stopped. The wait for in-flight iterations lasts until they have
+\* all finished or the completion timeout has expired: a warning that comes earlier (a timer cannot fire early) means
+\* the run gave up - and went on to tear down - while it still had to wait.
 TimeoutMsg(e) ==
-    /\ timeoutSeen' = TRUE /\ why' = why
+    /\ timeoutSeen' = TRUE
+    /\ why' = why \cup Fails(<<
+          <<e.d < 0 \/ e.d + 1000 >= Cfg.wait_us, "C05", "completion-timeout-announced-before-it-had-expired">>,
+          <<e.d < 0 \/ e.d + 1000 >= Cfg.wait_us, "C06", "teardown-released-before-iterations-finished-or-the-timeout-expired">> >>)
     /\ Unch(<<lmax, skipped, setupSeen, ids, liveIds, liveH, endedIds, cleaned, succT, failT, sumTicks, lateSum, dropSum, stopSeen, limitSeen,
               evals, firstEvalT, pendingV, progS, progF, cancelT, retSeen, ret, mS, mF, mD, mSetup, mSetupRes, labelsBad,
               stageCur, stageOpen, setupCleanupSeen, rvOK>>)
@@ -326,6 +332,14 @@ UEval(e) ==
               evals, firstEvalT, pendingV, progS, progF, cancelT, timeoutSeen, retSeen, ret, mS, mF, mD, mSetup, mSetupRes,
               labelsBad, stageCur, stageOpen, setupCleanupSeen, rvOK>>)
 
+\* file mode: what the stage's trigger goroutine finds in the environment while it is still busy with a rate evaluation
+\* (the caller has cancelled meanwhile): s = observed, b2 = what the stage provides
+EvalEnv(e) ==
+    /\ why' = why \cup Fails(<< <<e.s = e.b2, "C15", "stage-parameters-removed-while-the-stage-was-still-triggering">> >>)
+    /\ Unch(<<lmax, skipped, setupSeen, ids, liveIds, liveH, endedIds, cleaned, succT, failT, sumTicks, lateSum, dropSum, stopSeen, limitSeen,
+              evals, firstEvalT, pendingV, progS, progF, cancelT, timeoutSeen, retSeen, ret, mS, mF, mD, mSetup, mSetupRes,
+              labelsBad, stageCur, stageOpen, setupCleanupSeen, rvOK>>)
+
 Other(e) == why' = why /\
     Unch(<<lmax, skipped, setupSeen, ids, liveIds, liveH, endedIds, cleaned, succT, failT, sumTicks, lateSum, dropSum, stopSeen, limitSeen,
            evals, firstEvalT, pendingV, progS, progF, cancelT, timeoutSeen, retSeen, ret, mS, mF, mD, mSetup, mSetupRes,
@@ -359,6 +373,7 @@ Next == /\ i < Len(T[tr].ev)
              [] e.k = "after" -> After(e)
              [] e.k = "stage" -> Stage(e)
              [] e.k = "ueval" -> UEval(e)
+             [] e.k = "evalenv" -> EvalEnv(e)
              [] OTHER -> Other(e)
 
 Holds(p) == \A w \in why : w.p # p
